@@ -69,8 +69,10 @@ SIZES = [(24, 36), (26, 40), (27, 41)]
 NCROPS = 96
 WINDOWS = [3, 1, 5]
 SUBPIX = [2, 1, 4]
-CV_Q, DM_Q = ["cbca"], ["median", "bilateral", "vfit", "quad", "cross"]
-CV_T = ["cbca", "cbca2", "cbca4"]
+# cbca3i (distance 3, intensity 6 < radiometry range 15): the arm lengths really depend on the image; with "cbca"
+# (intensity 30) every arm has its full length on these images and with distance 2 every arm is 1 pixel: box filters
+CV_Q, DM_Q = ["cbca3i"], ["median", "bilateral", "vfit", "quad", "cross"]
+CV_T = ["cbca", "cbca2", "cbca4", "cbca3i"]
 DM_T = ["median", "median5", "bilateral", "bilateral5", "vfit", "quad", "cross", "cross0"]
 VARS = ("disparity_map", "validity_mask")
 TINY = 1e-5
